@@ -155,7 +155,7 @@ def cases(tier, seed):
         # steep / shallow pocket segments: "close in T but not in H" and the converse
         from fractions import Fraction
         for sv in itertools.product((-1, 1), repeat=4):
-            for mag in (Fraction(1, 100), 100):
+            for mag in (Fraction(1, 128), 128):
                 out.append({"slopes": [float(s * mag) if i % 2 else s for i, s in enumerate(sv)], "sep": 1e-3})
     return out
 
@@ -164,7 +164,7 @@ FAMILIES = [
     Family(
         name="pockets", cases=cases, body=body, functions=FUNCS, files=FILES,
         bounds="GCC tables of 2-6 rows with every slope-sign vector in {-1,0,+1}^(n-1) (quick: complete to 5 rows plus all "
-               "+/-1 vectors of 6 rows; thorough: complete to 6 rows, all +/-1 vectors of 7 and 8 rows, slope magnitudes 1/100 and 100 on 5 rows); "
+               "+/-1 vectors of 6 rows; thorough: complete to 6 rows, all +/-1 vectors of 7 and 8 rows, slope magnitudes 1/128 and 128 on 5 rows); "
                "temperature gaps in [0.01,100] K, top temperature and enthalpy offset symbolic; min H = 0 with the solver choosing the pinch row(s)",
         assumptions=["floats modelled as exact reals",
                      "per-interval GCC slopes are concrete (unit magnitude unless stated); temperature gaps are symbolic",
